@@ -4,7 +4,7 @@
    produce that same list. *)
 From Coq Require Import List String Ascii Bool Arith ZArith Lia ZifyBool.
 From Helm Require Import Values.Tree Chart.Paths Chart.PathsProofs Chart.Archive Chart.ArchiveProofs
-  Chart.Files Chart.Save Chart.Load Chart.Wf Chart.LoadProofs.
+  Chart.Files Chart.Save Chart.Load Chart.Wf Chart.LoadProofs Gen.Limits.
 Import ListNotations.
 Local Open Scope string_scope.
 
@@ -23,6 +23,12 @@ Proof.
   induction l as [|n l IH]; intros H; simpl; auto.
   rewrite (H n (or_introl eq_refl)). rewrite IH by (intros; apply H; now right). reflexivity.
 Qed.
+
+Lemma size_checks_agree (a b : Z) :
+  cmp_of Gen.Limits.op_dir_file_vs_limit a b = dir_file_over_limit a b /\
+  cmp_of Gen.Limits.op_entry_vs_file_limit a b = entry_over_file_limit a b /\
+  dir_file_over_limit a b = entry_over_file_limit a b.
+Proof. repeat split; reflexivity. Qed.
 
 Section Agree.
   Variable md_merge : meta -> string -> option meta.
@@ -49,7 +55,7 @@ Section Agree.
   Proof.
     induction walk as [|f walk IH]; simpl; intros H; auto.
     unfold kept in *. simpl in *. destruct (eff_ignored ignored (f_name f)); simpl in *; auto.
-    inversion H; subst. assert ((slen (f_data f) >? maxf)%Z = false) as -> by lia.
+    inversion H; subst. unfold dir_file_over_limit. assert ((slen (f_data f) >? maxf)%Z = false) as -> by lia.
     now rewrite IH.
   Qed.
 
